@@ -10,7 +10,7 @@
    on disk after the call) is established by the fault-injection runs of
    harness/props/c14.py on the real code, not proved. *)
 From Coq Require Import ZArith List Bool Permutation.
-From CTM Require Import Base.Sx Model.Pool Model.RunEffects Model.ExitCode Proofs.PoolP Proofs.RunEffectsP Proofs.SelPoolP
+From CTM Require Import Base.Sx Model.Pool Model.RunEffects Model.ExitCode Proofs.PoolP Proofs.RunEffectsP Proofs.RunEffectsFinP Proofs.SelPoolP
   Proofs.ExitCodeP.
 Import ListNotations.
 
@@ -70,6 +70,27 @@ Theorem c14_abnormal_codes : forall m,
 Proof. exact exit_code_nonzero_guarded. Qed.
 Print Assumptions c14_abnormal_codes.
 
+(* WHAT `Raises` MEANS (audit 4, A6).  HYPOTHESIS of every statement about a worker that "raises" (mode
+   Raises, exit code 1) and about a step of run_mapping that "raises" (Fail p: caught by `except Exception`,
+   traceback logged, tag 13): the exception is an instance of a subclass of Exception (is_exception).  For the
+   exit code the hypothesis can be weakened to: not a SystemExit whose code is None or a multiple of 256 -
+   exactly those leave the worker with exit code 0 (a forked worker that raises SystemExit(0) is, to every
+   parent, a worker that returned).  Observed on real forked workers (harness tag 1407). *)
+Theorem c14_raises_means_exception : forall r,
+  (is_exception r = true -> raise_exit_code r = exit_code_of Raises) /\
+  (raise_exit_code r = 0%Z <-> r = RSystemExitNone \/ exists k, r = RSystemExitInt k /\ (k mod 256 = 0)%Z).
+Proof. exact raises_means_exception. Qed.
+Print Assumptions c14_raises_means_exception.
+(* the hypothesis is met by what the harness and real failures raise (RuntimeError: RException -> 1) and the
+   excluded input is exactly where a raising worker is not seen: SystemExit() and SystemExit(0) -> 0 *)
+Example c14_example_system_exit_excluded :
+  raise_exit_code RException = 1%Z /\ exit_code_of Raises = 1%Z /\
+  raise_exit_code RSystemExitNone = 0%Z /\ raise_exit_code (RSystemExitInt 0) = 0%Z /\
+  raise_exit_code (RSystemExitInt 3) = 3%Z /\ raise_exit_code (RSystemExitInt 256) = 0%Z /\
+  raise_exit_code RSystemExitOther = 1%Z /\ raise_exit_code RBaseException = 1%Z /\
+  is_exception RBaseException = false /\ is_exception RSystemExitNone = false /\ is_exception RException = true.
+Proof. exact system_exit_examples. Qed.
+
 (* os._exit(256) cannot be told from a normal exit by ANY parent: the kernel hands out the low 8
    bits of the status.  "Exiting non-zero" in the property means a non-zero exit STATUS *)
 Theorem c14_exit_256_refuted :
@@ -87,20 +108,30 @@ Print Assumptions c14_exit_256_refuted.
    requested) holds the metadata only, the result buffer directory made at the top of `try`
    is removed in the `finally` block (buffer_cleaned_trace: after the failing step and the
    traceback, before the tmp directory is removed and before the log file / JSON / HDF5 are
-   written) — and no CSV is written. *)
-Theorem c14_mapping_effects : forall (c : cfg) (W : world) (n k : nat),
+   written) — and no CSV is written; the exception the caller sees is the inspector's
+   (propagated = ExBody PAssign).
+   HYPOTHESIS fin_quiet c ff (audit 4, A2): no step of the `finally` block raises (ff is None or
+   names a step that is not executed under c).  It is what a real run satisfies whose log path,
+   output path and HDF5 path can be written and whose query file can be opened
+   (c14_example_mapping: ff = None); WITHOUT it the conclusion is false - the log write, the
+   read of the query's uns, the JSON dump or the HDF5 write raise, the rest of `finally` is
+   skipped and the caller sees THAT exception: c14_worker_failure_and_finally_failure,
+   c14_log_written_after_worker_failure_refuted. *)
+Theorem c14_mapping_effects : forall (c : cfg) (W : world) (n k : nat) (ff : option fpoint),
   (1 <= n)%nat -> (exists w, (w < k)%nat /\ code W w <> 0%Z) ->
+  fin_quiet c ff = true ->
   let fail := assign_fail (stage_result false W n k) in
   fail = Some PAssign /\
   snd (inner c fail) = None /\
-  failed_run_ok c fail = true /\ no_csv c fail = true.
+  failed_run_ok c fail ff = true /\ no_csv c fail ff = true /\
+  propagated c fail ff = ExBody PAssign.
 Proof. exact mapping_effects. Qed.
 Print Assumptions c14_mapping_effects.
 
 (* the same in readable form, wherever _run_mapping raised *)
-Theorem c14_failed_run_effects : forall c fail, failed_run_ok c fail = true ->
-  let tr := fst (run_mapping c fail) in
-  snd (run_mapping c fail) = true /\ has_eff 19 tr = true /\ has_eff 11 tr = false /\
+Theorem c14_failed_run_effects : forall c fail ff, failed_run_ok c fail ff = true ->
+  let tr := fst (run_mapping c fail ff) in
+  snd (run_mapping c fail ff) = true /\ has_eff 19 tr = true /\ has_eff 11 tr = false /\
   has_eff 13 tr = true /\ (has_log_path c = true -> has_eff 16 tr = true) /\
   (forall ks, json_keys tr = Some ks -> has_key KResults ks = false /\
       forall k, has_key k ks = true <-> has_key k (finally_keys c) = true) /\
@@ -111,8 +142,13 @@ Theorem c14_failed_run_effects : forall c fail, failed_run_ok c fail = true ->
 Proof. exact failed_run_unfold. Qed.
 Print Assumptions c14_failed_run_effects.
 
-Theorem c14_any_inner_failure : forall c fail,
-  snd (inner c fail) = None -> failed_run_ok c fail = true.
+(* wherever _run_mapping raises, PROVIDED no step of `finally` raises (fin_quiet; audit 4, A2:
+   with a query file that is absent or a directory the copy step raises, bf = Some PCopy, AND
+   read_uns_from_h5ad in `finally` raises, ff = Some PReadUns - the real run then writes the log
+   file only, no JSON, no HDF5; without the hypothesis the statement was false of that run).
+   A finite check of the transcription (256 configurations x 7 x 5). *)
+Theorem c14_any_inner_failure : forall c fail ff,
+  snd (inner c fail) = None -> fin_quiet c ff = true -> failed_run_ok c fail ff = true.
 Proof. exact inner_raised_checked. Qed.
 Print Assumptions c14_any_inner_failure.
 
@@ -128,18 +164,19 @@ Print Assumptions c14_any_inner_failure.
    world with a failing worker, under every schedule and bound, makes the assignment step the
    failing one.  That the real run_mapping executes its steps in this order is what the
    fault-injection runs of harness/props/c14.py compare (effects observed on the real
-   run_mapping against run_mapping_sx, tag 1404). *)
-Theorem c14_failed_run_leaves_query_untouched : forall (c : cfg) (W : world) (n k : nat),
+   run_mapping against run_mapping_sx, tag 1404).
+   Whatever happens inside `finally` (ff arbitrary: no hypothesis on it is needed here). *)
+Theorem c14_failed_run_leaves_query_untouched : forall (c : cfg) (W : world) (n k : nat) (ff : option fpoint),
   (1 <= n)%nat -> (exists w, (w < k)%nat /\ code W w <> 0%Z) ->
-  let tr := fst (run_mapping c (assign_fail (stage_result false W n k))) in
+  let tr := fst (run_mapping c (assign_fail (stage_result false W n k)) ff) in
   has_eff 8 tr = false /\ has_eff 9 tr = false /\ has_eff 7 tr = false /\ has_eff 11 tr = false.
 Proof. exact failed_run_leaves_query_untouched. Qed.
 Print Assumptions c14_failed_run_leaves_query_untouched.
 
 (* the same for a failure at any point up to and including the assignment *)
-Theorem c14_early_failure_no_obsm : forall c fail,
+Theorem c14_early_failure_no_obsm : forall c fail ff,
   (fail = Some PCopy \/ fail = Some PMarkerCache \/ fail = Some PAssign) ->
-  has_eff 8 (fst (run_mapping c fail)) = false /\ has_eff 9 (fst (run_mapping c fail)) = false.
+  has_eff 8 (fst (run_mapping c fail ff)) = false /\ has_eff 9 (fst (run_mapping c fail ff)) = false.
 Proof. exact early_failure_no_obsm. Qed.
 Print Assumptions c14_early_failure_no_obsm.
 
@@ -149,32 +186,40 @@ Print Assumptions c14_early_failure_no_obsm.
    body of `try` the removal comes after the failing step and after the traceback was added
    to the log and before the re-raise; it comes before the removal of the tmp directory,
    before each of the log file, the JSON and the HDF5 output that is written, and before a
-   failure inside `finally` (tag 20); and unless a step of `finally` fails every requested
-   output is written.  (Before the repair of finding F9 the removal was the last step of
+   failure inside `finally` (tag 20); and unless a step of `finally` fails (fin_quiet) every
+   requested output is written and a body exception is re-raised (19) - when a step of `finally`
+   fails after the body did, there is no re-raise (audit 4, A2b).  (Before the repair of finding F9 the removal was the last step of
    the success path only.) *)
-Theorem c14_result_buffer_removed_on_every_path : forall c fail,
-  let tr := fst (run_mapping c fail) in
+Theorem c14_result_buffer_removed_on_every_path : forall c fail ff,
+  let tr := fst (run_mapping c fail ff) in
   has_eff 3 tr = true /\ has_eff 10 tr = true /\ before 3 10 tr = true /\
-  (body_raised c fail = true -> before 12 10 tr = true /\ before 13 10 tr = true /\ before 10 19 tr = true) /\
+  (body_raised c fail = true -> before 12 10 tr = true /\ before 13 10 tr = true /\
+                                (has_eff 19 tr = true -> before 10 19 tr = true) /\
+                                (fin_quiet c ff = true -> has_eff 19 tr = true)) /\
   (has_tmp c = true -> before 10 14 tr = true) /\
   (has_eff 16 tr = true -> before 10 16 tr = true) /\
   (has_eff 17 tr = true -> before 10 17 tr = true) /\
   (has_eff 18 tr = true -> before 10 18 tr = true) /\
   (has_eff 20 tr = true -> before 10 20 tr = true) /\
-  ((forall p, fail = Some p -> in_finally p = false) ->
+  (fin_quiet c ff = true ->
    (has_log_path c = true -> has_eff 16 tr = true) /\
    (has_json c = true -> has_eff 17 tr = true) /\
    (has_hdf5 c = true -> has_eff 18 tr = true)).
 Proof. exact buffer_cleaned_unfold. Qed.
 Print Assumptions c14_result_buffer_removed_on_every_path.
 
-Theorem c14_result_buffer_cleaned : forall c fail, buffer_cleaned c fail = true.
+Theorem c14_result_buffer_cleaned : forall c fail ff, buffer_cleaned c fail ff = true.
 Proof. exact buffer_cleaned_checked. Qed.
 Print Assumptions c14_result_buffer_cleaned.
 
-(* a failure INSIDE `finally` (audit 3, item 13; fail points PLogFile, PJson, PHdf5 added to
-   the model).  Whenever one of the three writes of the `finally` block is enabled and raises,
-   the call raises AFTER the success message was logged (11 before 20), after the CSV, the
+(* a failure INSIDE `finally` after the body of `try` SUCCEEDED (audit 3, item 13; fail points
+   PLogFile, PJson, PHdf5; PReadUns added by audit 4).  A FINITE CHECK OF THE TRANSCRIPTION in
+   Model/RunEffects.v (it re-proves by `intros [[] [] [] [] [] [] [] []] [[]|] []; vm_compute`):
+   the content is in the tie, which drives PLogFile (log_path an existing directory), PJson
+   (output_path an existing directory), PHdf5 (missing directory) and PReadUns (only together
+   with PCopy: a query file that the body accepts and `finally` cannot open does not exist).
+   Whenever one of the four steps of the `finally` block is enabled and raises and the body did
+   not raise, the call raises AFTER the success message was logged (11 before 20), after the CSV, the
    obsm of the query file and the summary were written (when requested) and after the result
    buffer and the tmp directory were removed; no traceback is added to the log and nothing
    is re-raised (finally_failed_trace).  Such a trace does NOT satisfy prop_trace_ok (a success
@@ -197,25 +242,96 @@ Print Assumptions c14_result_buffer_cleaned.
    as a description of what the code does, not as a `_refuted` theorem; it is reported to the
    lead as an observation (hdf5_output_path is not probed like the two other paths, so a run
    of hours can end in a raise after everything else was written), outside C14. *)
-Theorem c14_failure_in_finally_after_success : forall c p,
-  fin_enabled c p = true ->
-  finally_failed_trace c (fst (run_mapping c (Some p))) (snd (run_mapping c (Some p))) = true /\
-  prop_trace_ok c (fst (run_mapping c (Some p))) (snd (run_mapping c (Some p))) = false.
+Theorem c14_failure_in_finally_after_success : forall c bf p,
+  body_raised c bf = false -> fin_enabled c p = true ->
+  finally_failed_trace c (fst (run_mapping c bf (Some p))) (snd (run_mapping c bf (Some p))) = true /\
+  prop_trace_ok c (fst (run_mapping c bf (Some p))) (snd (run_mapping c bf (Some p))) = false /\
+  propagated c bf (Some p) = ExFin p None.
 Proof. exact finally_failure_after_success. Qed.
 Print Assumptions c14_failure_in_finally_after_success.
 
 (* the HDF5 write in readable form: the call raises, the success message is logged, no
    traceback, no re-raise, no HDF5 file; obsm appended, CSV, log file and the JSON with the
-   complete results written *)
+   complete results written.  A FINITE CHECK OF THE TRANSCRIPTION (re-proves by
+   `intros [[] [] [] [] [] [] [] []]; vm_compute`); matched by the real runs of the tie (point 9). *)
 Theorem c14_hdf5_failure_effects : forall c, has_hdf5 c = true ->
-  let tr := fst (run_mapping c (Some PHdf5)) in
-  snd (run_mapping c (Some PHdf5)) = true /\
+  let tr := fst (run_mapping c None (Some PHdf5)) in
+  snd (run_mapping c None (Some PHdf5)) = true /\
   has_eff 11 tr = true /\ has_eff 13 tr = false /\ has_eff 19 tr = false /\ has_eff 18 tr = false /\
   (has_obsm c = true -> has_eff 8 tr = true) /\ (has_csv c = true -> has_eff 7 tr = true) /\
   (has_log_path c = true -> has_eff 16 tr = true) /\
   (has_json c = true -> exists ks, json_keys tr = Some ks /\ has_key KResults ks = true).
 Proof. exact hdf5_failure_unfold. Qed.
 Print Assumptions c14_hdf5_failure_effects.
+
+(* ---- a failure of the body AND a failure inside `finally` (audit 4, A2b).
+   For every configuration, every fail point bf at which the body raises and every enabled step
+   p of `finally` that raises: double_failed_trace - the call raises; the `except` clause ran
+   (12 then 13 then the buffer removal) but nothing is re-raised (no 19), the trace ends at the
+   failing step (20); no success message; the log FILE is written iff a log path was given and
+   p is not the log write; the JSON iff requested and p is the HDF5 write; never an HDF5 -; the
+   caller sees the exception of `finally`, the body's survives only as its __context__
+   (ExFin p (Some q)); failed_trace_ok does not hold.  A finite check of the transcription;
+   the tie drives bf = PAssign (a real worker made to raise) with p = PLogFile / PJson / PHdf5
+   and bf = PCopy with p = PReadUns, and reads the chain of __context__ and the line of
+   run_mapping at which each exception of the chain was raised. *)
+Theorem c14_body_and_finally_failure : forall c bf p,
+  body_raised c bf = true -> fin_enabled c p = true ->
+  let r := run_mapping c bf (Some p) in
+  double_failed_trace c p (fst r) (snd r) = true /\
+  (exists q, propagated c bf (Some p) = ExFin p (Some q) /\ failed_body (fst r) = Some q) /\
+  failed_trace_ok c (fst r) (snd r) = false.
+Proof. exact double_failure_checked. Qed.
+Print Assumptions c14_body_and_finally_failure.
+
+(* which exception the caller sees, in all cases *)
+Theorem c14_propagated_exception : forall c bf ff,
+  let r := run_mapping c bf ff in
+  (propagated c bf ff = ExNone <-> snd r = false) /\
+  (body_raised c bf = true -> fin_quiet c ff = true -> exists q, propagated c bf ff = ExBody q) /\
+  (forall p, ff = Some p -> fin_enabled c p = true ->
+     propagated c bf ff = ExFin p (failed_body (fst r)) /\ has_eff 19 (fst r) = false).
+Proof. exact propagated_cases. Qed.
+Print Assumptions c14_propagated_exception.
+
+(* composed with Model/Pool.v: a failing worker of the assignment pool (every world, schedule,
+   bound) and a failing step of `finally`.  The call raises - the exception of `finally`, the
+   inspector's RuntimeError only as __context__ -; still no success message, no CSV, no obsm, no
+   summary, no HDF5, no `results` in a JSON; but the log file is written ONLY IF the failing
+   step is not the log write. *)
+Theorem c14_worker_failure_and_finally_failure : forall (c : cfg) (W : world) (n k : nat) (p : fpoint),
+  (1 <= n)%nat -> (exists w, (w < k)%nat /\ code W w <> 0%Z) ->
+  fin_enabled c p = true ->
+  let fail := assign_fail (stage_result false W n k) in
+  let r := run_mapping c fail (Some p) in
+  snd r = true /\ propagated c fail (Some p) = ExFin p (Some PAssign) /\
+  has_eff 13 (fst r) = true /\ has_eff 19 (fst r) = false /\ has_eff 11 (fst r) = false /\
+  has_eff 7 (fst r) = false /\ has_eff 8 (fst r) = false /\ has_eff 9 (fst r) = false /\
+  has_eff 18 (fst r) = false /\
+  has_eff 16 (fst r) = (has_log_path c && negb (fpoint_eqb p PLogFile)) /\
+  has_eff 17 (fst r) = (has_json c && fpoint_eqb p PHdf5) /\
+  (forall ks, json_keys (fst r) = Some ks -> has_key KResults ks = false).
+Proof. exact mapping_double_failure. Qed.
+Print Assumptions c14_worker_failure_and_finally_failure.
+
+(* REFUTED, finding F34: "A mapping run in that situation [a worker terminated abnormally] ...
+   still writes its log".  With log_path an existing DIRECTORY (it passes the probe before `try`,
+   which only probes paths that do not exist) and a worker that raises, the real run_mapping
+   raises IsADirectoryError from log.write_log, the worker's RuntimeError only as __context__,
+   and writes NOTHING: no log file, no JSON (which would hold the log too), no HDF5 - observed,
+   out listing ['log.txt/'].  The antecedent of C14 holds (a worker terminated abnormally); the
+   clause is false.  (An unwritable log path is an invalid configuration: no implementation can
+   write a log there.  What the code could do, and does not: reject it before `try` like a path
+   in a missing directory, or still write the JSON - whose "log" key holds the traceback - when
+   the log file cannot be written.) *)
+Theorem c14_log_written_after_worker_failure_refuted :
+  exists c bf ff, bf = Some PAssign /\ has_log_path c = true /\
+    let r := run_mapping c bf ff in
+    snd r = true /\ has_eff 16 (fst r) = false /\ has_eff 17 (fst r) = false /\ has_eff 18 (fst r) = false /\
+    prop_trace_ok c (fst r) (snd r) = false /\
+    propagated c bf ff = ExFin PLogFile (Some PAssign).
+Proof. exact log_written_after_worker_failure_refuted. Qed.
+Print Assumptions c14_log_written_after_worker_failure_refuted.
 
 (* the other stages (and the assignment stage itself).  GIVEN THE TRANSCRIPTION of the six stages
    in Model/Pool.v (stats_stage ... mapping_stage: which effects come before each pool, after the
@@ -327,15 +443,18 @@ Print Assumptions c14_selection_duplicate_parent_refuted.
    executable statement of the property's own clauses (raises; no success message; log file written
    after the traceback was added; JSON / HDF5 hold only what the finally block adds), the predicate
    the harness evaluates on the effects OBSERVED on the real run_mapping.  A finite check of the
-   transcription in Model/RunEffects.v (256 configurations x 6 fail points; at the three fail
-   points inside `finally` _run_mapping has returned and the hypothesis is false:
-   c14_failure_in_finally_after_success).
+   transcription in Model/RunEffects.v (256 configurations x 6 fail points of the body x the
+   choices of ff that are quiet).  HYPOTHESIS fin_quiet c ff: no step of `finally` raises
+   (audit 4, A2: without it the statement is false - c14_body_and_finally_failure,
+   c14_log_written_after_worker_failure_refuted; with a missing query file bf = PCopy comes
+   with ff = PReadUns and the real run writes its log file and nothing else, which does
+   satisfy prop_trace_ok but not failed_trace_ok).
    (Until the audit this name stood for `failed_trace_ok c tr r = true -> prop_trace_ok c tr r = true`,
    which is a projection: failed_trace_ok is DEFINED as prop_trace_ok && ...; that remains as
    Proofs/RunEffectsP.v failed_implies_prop, labelled as what it is.) *)
-Theorem c14_failed_trace_has_property : forall c fail,
-  snd (inner c fail) = None ->
-  prop_trace_ok c (fst (run_mapping c fail)) (snd (run_mapping c fail)) = true.
+Theorem c14_failed_trace_has_property : forall c fail ff,
+  snd (inner c fail) = None -> fin_quiet c ff = true ->
+  prop_trace_ok c (fst (run_mapping c fail ff)) (snd (run_mapping c fail ff)) = true.
 Proof. exact failed_run_has_property. Qed.
 Print Assumptions c14_failed_trace_has_property.
 
@@ -355,10 +474,31 @@ Proof. vm_compute. reflexivity. Qed.
 Example c14_example_mapping :
   let c := {| has_tmp := true; has_csv := true; has_obsm := false; has_summary := false; has_log_path := true;
               has_json := true; has_hdf5 := true; has_gene_map := false |} in
-  map eff_tag (fst (run_mapping c (Some PAssign))) = [1; 2; 3; 4; 5; 12; 13; 10; 14; 15; 16; 17; 18; 19]%Z /\
-  json_keys (fst (run_mapping c (Some PAssign))) = Some [KConfig; KLog; KMetadata] /\
-  map eff_tag (fst (run_mapping c None)) = [1; 2; 3; 4; 5; 6; 7; 11; 10; 14; 15; 16; 17; 18]%Z /\
+  fin_quiet c None = true /\
+  map eff_tag (fst (run_mapping c (Some PAssign) None)) = [1; 2; 3; 4; 5; 12; 13; 10; 14; 15; 16; 21; 17; 18; 19]%Z /\
+  json_keys (fst (run_mapping c (Some PAssign) None)) = Some [KConfig; KLog; KMetadata] /\
+  map eff_tag (fst (run_mapping c None None)) = [1; 2; 3; 4; 5; 6; 7; 11; 10; 14; 15; 16; 21; 17; 18]%Z /\
   clean_run_ok c = true.
+Proof. vm_compute. repeat split; reflexivity. Qed.
+
+(* the excluded inputs of c14_any_inner_failure / c14_failed_trace_has_property are exactly where the
+   real run differs (all four observed on the real run_mapping, harness/props/c14.py other_fail_points):
+   - query file absent or a directory: copy step (1) and read_uns (10) raise; log file only;
+   - a worker raises and log_path is a directory: nothing written (F34);
+   - a worker raises and output_path is a directory: log file only;
+   - a worker raises and the HDF5 directory is missing: log file and JSON (config, log, metadata) *)
+Example c14_example_double_failures :
+  let c := {| has_tmp := true; has_csv := true; has_obsm := false; has_summary := false; has_log_path := true;
+              has_json := true; has_hdf5 := true; has_gene_map := false |} in
+  fin_quiet c (Some PReadUns) = false /\ body_raised c (Some PCopy) = true /\ fin_enabled c PReadUns = true /\
+  map eff_tag (fst (run_mapping c (Some PCopy) (Some PReadUns))) = [1; 2; 3; 12; 13; 10; 14; 15; 16; 20]%Z /\
+  failed_run_ok c (Some PCopy) (Some PReadUns) = false /\
+  propagated c (Some PCopy) (Some PReadUns) = ExFin PReadUns (Some PCopy) /\
+  map eff_tag (fst (run_mapping c (Some PAssign) (Some PLogFile))) = [1; 2; 3; 4; 5; 12; 13; 10; 14; 15; 20]%Z /\
+  map eff_tag (fst (run_mapping c (Some PAssign) (Some PJson))) = [1; 2; 3; 4; 5; 12; 13; 10; 14; 15; 16; 21; 20]%Z /\
+  map eff_tag (fst (run_mapping c (Some PAssign) (Some PHdf5))) = [1; 2; 3; 4; 5; 12; 13; 10; 14; 15; 16; 21; 17; 20]%Z /\
+  json_keys (fst (run_mapping c (Some PAssign) (Some PHdf5))) = Some [KConfig; KLog; KMetadata] /\
+  propagated c (Some PAssign) (Some PHdf5) = ExFin PHdf5 (Some PAssign).
 Proof. vm_compute. repeat split; reflexivity. Qed.
 
 (* the configuration of the real run quoted at c14_failure_in_finally_after_success (tmp, CSV,
@@ -369,12 +509,12 @@ Example c14_example_hdf5_failure :
   let c := {| has_tmp := true; has_csv := true; has_obsm := true; has_summary := false; has_log_path := true;
               has_json := true; has_hdf5 := true; has_gene_map := false |} in
   fin_enabled c PHdf5 = true /\
-  map eff_tag (fst (run_mapping c (Some PHdf5))) = [1; 2; 3; 4; 5; 6; 7; 8; 11; 10; 14; 15; 16; 17; 20]%Z /\
-  snd (run_mapping c (Some PHdf5)) = true /\
-  json_keys (fst (run_mapping c (Some PHdf5))) =
+  map eff_tag (fst (run_mapping c None (Some PHdf5))) = [1; 2; 3; 4; 5; 6; 7; 8; 11; 10; 14; 15; 16; 21; 17; 20]%Z /\
+  snd (run_mapping c None (Some PHdf5)) = true /\
+  json_keys (fst (run_mapping c None (Some PHdf5))) =
     Some [KResults; KMarkerGenes; KTaxonomyTree; KNUnmapped; KConfig; KLog; KMetadata] /\
   (* a log file that cannot be written: nothing at all is written at the outputs *)
-  map eff_tag (fst (run_mapping c (Some PLogFile))) = [1; 2; 3; 4; 5; 6; 7; 8; 11; 10; 14; 15; 20]%Z.
+  map eff_tag (fst (run_mapping c None (Some PLogFile))) = [1; 2; 3; 4; 5; 6; 7; 8; 11; 10; 14; 15; 20]%Z.
 Proof. vm_compute. repeat split; reflexivity. Qed.
 
 Example c14_example_stage :
